@@ -1,0 +1,31 @@
+//go:build verif
+
+// Contracts for package pkg (public API), checked by /verif/govc (comment-only; compiled only with -tags verif).
+package pkg
+
+//@ prelude c04
+
+//@ func CompileProfile(profileText string, debug bool, eventChan *chan e.Event) (*rego.PreparedEvalQuery, error)
+//@   requires [C11:fresh] eventChan != nil ==> (chanClosed == 0 && !evOpen && evNext == 0)
+//@   ensures [C11:closed-on-error] eventChan != nil ==> (result1 != nil ==> chanClosed == old(chanClosed) + 1)
+//@   ensures [C11:open-on-success] eventChan != nil ==> (result1 == nil ==> chanClosed == old(chanClosed) && !evOpen && evNext == 3)
+
+//@ func Validate(profileText string, jsonldText string, debug bool, eventChan *chan e.Event) (string, error)
+//@   requires [C11:fresh] eventChan != nil ==> (chanClosed == 0 && !evOpen && evNext == 0)
+//@   ensures [C11:closed-once] eventChan != nil ==> chanClosed == old(chanClosed) + 1
+//@   ensures [C04:no-verdict] !jsonTextValid(jsonldText) ==> (result1 != nil && result0 == "")
+
+//@ func ValidateCompiled(compiledRegoPtr *rego.PreparedEvalQuery, jsonldText string, debug bool, eventChan *chan e.Event) (string, error)
+//@   requires [C11:compiled] eventChan != nil ==> (chanClosed == 0 && !evOpen && evNext == 3)
+//@   ensures [C11:closed-once] eventChan != nil ==> chanClosed == old(chanClosed) + 1
+//@   ensures [C04:no-verdict] !jsonTextValid(jsonldText) ==> (result1 != nil && result0 == "")
+
+//@ func ValidateWithConfiguration(profileText string, jsonldText string, debug bool, eventChan *chan e.Event, validationConfig c.ValidationConfiguration, reportConfig c.ReportConfiguration) (string, error)
+//@   requires [C11:fresh] eventChan != nil ==> (chanClosed == 0 && !evOpen && evNext == 0)
+//@   ensures [C11:closed-once] eventChan != nil ==> chanClosed == old(chanClosed) + 1
+//@   ensures [C04:no-verdict] !jsonTextValid(jsonldText) ==> (result1 != nil && result0 == "")
+
+//@ func ValidateCompiledWithConfiguration(compiledRegoPtr *rego.PreparedEvalQuery, jsonldText string, debug bool, eventChan *chan e.Event, validationConfig c.ValidationConfiguration, reportConfig c.ReportConfiguration) (string, error)
+//@   requires [C11:compiled] eventChan != nil ==> (chanClosed == 0 && !evOpen && evNext == 3)
+//@   ensures [C11:closed-once] eventChan != nil ==> chanClosed == old(chanClosed) + 1
+//@   ensures [C04:no-verdict] !jsonTextValid(jsonldText) ==> (result1 != nil && result0 == "")
